@@ -2,6 +2,7 @@ import Driver.Dates
 import Driver.Holidays
 import Driver.Duals
 import Driver.Curves
+import Driver.FX
 open Drv
 
 structure St where
@@ -9,6 +10,7 @@ structure St where
   hols : HolState := {}
   duals : DualState := {}
   curves : CurveState := {}
+  fx : FxState := {}
 
 def stepLine (st : St) (line : String) : St × String :=
   let toks := (line.trimAscii.toString.splitOn " ").filter (· ≠ "")
@@ -24,6 +26,9 @@ def stepLine (st : St) (line : String) : St × String :=
   | none =>
   match curveStep st.duals st.curves toks with
   | some (c, out) => ({ st with curves := c }, out)
+  | none =>
+  match fxStep st.duals st.fx toks with
+  | some (f, out) => ({ st with fx := f }, out)
   | none => (st, "bad-op")
 
 partial def loop (h : IO.FS.Stream) (out : IO.FS.Stream) (st : St) : IO Unit := do
